@@ -15,6 +15,7 @@ package network
 // is exhausted, so no goroutine survives an execution.
 
 import (
+	"encoding/json"
 	"fmt"
 	"testing"
 
@@ -98,6 +99,14 @@ func TestVerif_C43_sched(t *testing.T) {
 		wp, _ := c43NewPeer(conn, make(chan IncomingMessage, 4), c43PeerOpt{inFilter: makeMessageFilter(2, 2)})
 		wp.wg.Add(1)
 		wp.readLoop()
+	}
+	if raw := r.ReplayRequest(); raw != nil {
+		var req struct {
+			Engine string `json:"engine"`
+		}
+		if json.Unmarshal(raw, &req) != nil || req.Engine != "sched" {
+			return // replay file addressed to part 1
+		}
 	}
 	bound := ve.Pick(2, 3)
 	av, tx := protocol.AgreementVoteTag, protocol.TxnTag
